@@ -85,6 +85,14 @@ def amount_limit(twin: bool = False, real: bool = False):
     return check_amount, {"v": 5}
 
 
+def enforced(shape: str, h: int, twin: bool = False, real: bool = False):
+    """The schedule and the limit as the validator ENFORCES them (not only as get_block_subsidy / validate_sashimi_range compute
+    them): a block at an era boundary may claim at most the subsidy of ITS height plus fees, and the limit applies to the total
+    of a transaction's outputs as well as to each of them. Harness shared with C02 (CoinState.add_block, symbolic amounts)."""
+    from harness import c02_inflation
+    return c02_inflation.step(shape, h, twin=twin, real=real)
+
+
 def total_supply():
     """z3: sum over eras of I * (10^9 div 2^k) == documented maximum == MAX_SASHIMI == docs/params.md."""
     import time
@@ -130,6 +138,9 @@ def obligations(tier: str, known: List[str]) -> List[Ob]:
               "era", {"k": k}, timeout=60) for k in range(65)]
     obs.append(Ob("amount-limit", "documented maximum is the validator's upper limit on any amount", "amount_limit", {}, timeout=60))
     obs = with_twins(obs, every=8)
+    for (shape, hh) in (("reward-only", 1050000), ("reward-only", 1049999), ("reward-only", 33 * 1050000), ("1tx-2in-2out", 2), ("1tx-1in-2out-2rewards", 2)):
+        obs.append(Ob("enforced[%s,h=%d]" % (shape, hh), "the validator enforces the schedule of the block's own height and the limit on totals",
+                      "enforced", {"shape": shape, "h": hh}, timeout=600))
     obs.append(Ob("total-supply", "sum over all heights == 2,099,999,986,350,000 == documented maximum", "total_supply", {}, kind="e2"))
     return obs
 
